@@ -548,7 +548,23 @@ func genC06(d *Draw) Case {
 		g.addNode(&Node{ID: "XM", Kind: "xor"})
 	}
 	g.addNode(&Node{ID: "EG", Kind: "evgw"})
-	g.connect(defs, cur, "EG", nil, -1)
+	// two tokens behind the same gateway at the same time: a parallel fork whose flows both lead into it
+	// (one of them optionally through a task, so that the second token may arrive after the first event)
+	two := acts == 1 && d.N(4) == 3
+	if two {
+		g.addNode(&Node{ID: "AF", Kind: "and"})
+		g.connect(defs, cur, "AF", nil, -1)
+		g.connect(defs, "AF", "EG", nil, -1)
+		if d.Bool() {
+			g.addNode(&Node{ID: "TA", Kind: "task", Results: []string{"r_TA"}})
+			g.connect(defs, "AF", "TA", nil, -1)
+			g.connect(defs, "TA", "EG", nil, -1)
+		} else {
+			g.connect(defs, "AF", "EG", nil, -1)
+		}
+	} else {
+		g.connect(defs, cur, "EG", nil, -1)
+	}
 	for i := 0; i < na; i++ {
 		c := g.addNode(&Node{ID: fmt.Sprintf("C%d", i+1), Kind: "catch", Events: []EventDef{alts[i]}})
 		t := g.addNode(&Node{ID: fmt.Sprintf("T%d", i+1), Kind: "task", Results: []string{fmt.Sprintf("r_T%d", i+1)}})
@@ -575,7 +591,10 @@ func genC06(d *Draw) Case {
 	c := &ProcCase{Buf: d.N(17), Hold: d.N(3)}
 	// event plan: a non-empty sequence over the competing events (plus an occasional stranger)
 	ne := 1 + d.N(4) + 2*(acts-1)
-	conc := d.N(3) == 2 && acts == 1
+	conc := d.N(3) == 2 && acts == 1 && !two
+	if two {
+		ne += 2
+	}
 	var evd []string
 	pool := append(append([]EventDef{}, alts[:na]...), EventDef{Kind: "signal", Ref: "sX"})
 	for i := 0; i < ne; i++ {
@@ -613,7 +632,11 @@ func genC06(d *Draw) Case {
 	}
 	c.Prog = &Program{Defs: defs, Vars: map[string]any{}, Tags: tags, Desc: fmt.Sprintf("event gateway with %d alternatives %v, events %v concurrent=%v", na, alts[:na], evd, conc)}
 	c.Picks = drawPicks(d, 32)
-	c.Meta = map[string]int{"conc": b2i(conc), "na": na, "acts": acts}
+	c.Meta = map[string]int{"conc": b2i(conc), "na": na, "acts": acts, "two": b2i(two)}
+	if two {
+		c.Prog.Tags = append(c.Prog.Tags, "two-tokens-at-the-gateway")
+		c.Prog.Desc += " two tokens (parallel fork in front of the gateway)"
+	}
 	return c
 }
 
@@ -645,7 +668,7 @@ func checkC06(cc Case, r *simrt.Result) *Outcome {
 		case "t:determination":
 			det++
 		case "t:task":
-			if ev.A != "T0" {
+			if ev.A != "T0" && ev.A != "TA" {
 				branchReq[ev.A]++
 			}
 		case "t:listening":
@@ -673,7 +696,7 @@ func checkC06(cc Case, r *simrt.Result) *Outcome {
 			anyCompetitor = true
 		}
 	}
-	if quiesced && c.Meta["acts"] <= 1 {
+	if quiesced && c.Meta["acts"] <= 1 && c.Meta["two"] == 0 {
 		total := 0
 		for k, n := range branchReq {
 			total += n
@@ -707,6 +730,8 @@ func checkC06(cc Case, r *simrt.Result) *Outcome {
 	probe(o, "concurrent-delivery", c.Meta["conc"] == 1)
 	probe(o, "events-race-with-arming", hasTag(c.Prog.Tags, "events-race-with-arming"))
 	probe(o, "gateway-re-entered", c.Meta["acts"] > 1 && det > 1)
+	probe(o, "two-tokens-at-the-gateway", c.Meta["two"] == 1)
+	probe(o, "two-tokens-at-the-gateway-both-continued", c.Meta["two"] == 1 && det > 1)
 	probe(o, "several-competitors-delivered", func() bool {
 		n := 0
 		for i := 1; i <= na; i++ {
